@@ -868,7 +868,7 @@ theorem resolveNames_eq (strtab : SecBuf) (hb : BufOk strtab) (secs : List SecBu
   | nil => rfl
   | cons b rest ih =>
     obtain ⟨r, hr, -⟩ := getString_total' strtab hb b.nameOff
-    unfold resolveNames
+    rw [LoadTie.resolveNames_cons]
     rw [hr, ih]
     cases r <;> simp [bind, Except.bind, pure, Except.pure, withName, hr]
 
@@ -1000,7 +1000,10 @@ theorem load_eq (o : Obj) (st : IStream) (isLazy : Bool) :
          let o1 : Obj := { o0 with cls := c, enc := enc, hdr := some hdr }
          if r2.1.gcount != ehdrSize c then .ok (failRes o1 r2.1) else
          loadAfterHdr o1 c enc hdr isLazy r2.1) := by
-  unfold load
+  -- the model's gate conditions, loop conditions and class dispatch are the generated ones;
+  -- `LoadTie.load_hand` is their hand form
+  rw [LoadTie.load_hand]
+  unfold LoadTie.loadHand
   rfl
 
 /-- everything the loader guarantees about its result -/
